@@ -91,47 +91,70 @@ def r42(ctx):
     adds = [cfg.node_of(c) for c in walk_local(f) if isinstance(c, ast.Call) and is_self_attr(c.func, "add_traj")]
     for st in accs:
         at = cfg.node_of(st)
-        # which path is credited: traj_data[<live>]
         inner = st.target.value  # traj_data[live]
         live = inner.slice if isinstance(inner, ast.Subscript) else None
         ok = True
-        guard = None
+        # ---- where do (row index, credited path) come from?
+        loops = [l for l in loops_of(st) if isinstance(l, ast.For)]
+        pairing = None   # (idx name, live name, how, filter collection or None)
+        for l in loops:
+            it = l.iter
+            tgt = l.target
+            if not (isinstance(tgt, ast.Tuple) and len(tgt.elts) == 2 and all(isinstance(e, ast.Name) for e in tgt.elts)):
+                continue
+            idx, lv = tgt.elts[0].id, tgt.elts[1].id
+            if live is None or ast.unparse(live) != lv:
+                continue
+            if isinstance(it, ast.Call) and dotted(it.func) == "enumerate" and it.args and isinstance(it.args[0], ast.Call) and is_self_attr(it.args[0].func, "live_paths"):
+                pairing = (idx, lv, "enumerate(live_paths())", None)
+            else:
+                # a pre-filtered list of (index, path) pairs built from enumerate(self.live_paths())
+                for kind, node, sat, extra in fl.sources(it, cfg.node_of(l)):
+                    if kind == "expr" and isinstance(node, (ast.ListComp, ast.GeneratorExp)) and len(node.generators) == 1:
+                        g = node.generators[0]
+                        if (isinstance(g.iter, ast.Call) and dotted(g.iter.func) == "enumerate" and g.iter.args and isinstance(g.iter.args[0], ast.Call)
+                                and is_self_attr(g.iter.args[0].func, "live_paths") and isinstance(node.elt, ast.Tuple) and ast.unparse(node.elt) == ast.unparse(g.target)):
+                            filt = None
+                            for c in g.ifs:
+                                if isinstance(c, ast.Compare) and isinstance(c.ops[0], ast.NotIn) and ast.unparse(c.left) == ast.unparse(g.target.elts[1]):
+                                    filt = (c.comparators[0], sat)
+                            pairing = (idx, lv, "filtered enumerate(live_paths())", filt)
+                if pairing is None and isinstance(it, ast.Call) and dotted(it.func) == "enumerate":
+                    pairing = (idx, lv, "enumerate of something else", None)
+        if pairing is None or pairing[2] == "enumerate of something else":
+            ctx.bad(rid, st, "the row of the P matrix that is added is not indexed by the position of the credited path in self.live_paths() "
+                    "(the index comes from a different / filtered enumeration): idle paths after a busy one receive another path's row",
+                    construct=short(st, 90))
+            continue
+        idx, lv = pairing[0], pairing[1]
+        v = ast.unparse(st.value)
+        if not (("_last_prob" in v or "self.prob" in v) and f"[{idx}" in v.replace(" ", "")):
+            ctx.bad(rid, st, "the accumulated row is not the P-matrix row of the same live-path index that is credited")
+            ok = False
+        # ---- idle guard
+        coll = None
         for e, t, bn in cfg.guards(at):
-            if isinstance(e, ast.Compare) and isinstance(e.ops[0], (ast.NotIn, ast.In)) and live is not None and ast.unparse(e.left) == ast.unparse(live):
+            if isinstance(e, ast.Compare) and isinstance(e.ops[0], (ast.NotIn, ast.In)) and ast.unparse(e.left) == lv:
                 if (isinstance(e.ops[0], ast.NotIn) and t) or (isinstance(e.ops[0], ast.In) and not t):
-                    guard = (e, bn)
-        if guard is None:
+                    tn = [x for x in cfg.nodes if x.kind == "test" and x.ast is bn.ast][0]
+                    coll = (e.comparators[0], tn)
+        if coll is None and pairing[3] is not None:
+            coll = pairing[3]
+        if coll is None:
             ctx.bad(rid, st, "weights are accumulated without the idle guard `live not in <locked paths>`: busy paths receive weight")
             continue
-        coll = guard[0].comparators[0]
-        tn = [x for x in cfg.nodes if x.kind == "test" and x.ast is guard[1].ast][0]
-        srcs = fl.sources(coll, tn)
+        srcs = fl.sources(coll[0], coll[1])
         from_locked = bool(srcs) and all(k == "expr" and isinstance(n, ast.Call) and is_self_attr(n.func, "locked_paths") for k, n, _, _ in srcs)
         if not from_locked:
             ctx.bad(rid, st, "the idle guard does not test against self.locked_paths()")
             ok = False
         else:
-            # locked paths must be taken after the finished job's slots were released (add_traj)
             for k, n, snode, _ in srcs:
                 if any(cfg.reaches(snode, a) for a in adds):
                     ctx.bad(rid, st, "the locked-path list used by the idle guard is taken before the finished job's add_traj calls: the just-finished (now idle) paths are still treated as busy, or the replaced path still counts as live")
                     ok = False
-        # live / idx from enumerate(self.live_paths()); the added row uses the same idx
-        loops = [l for l in loops_of(st) if isinstance(l, ast.For)]
-        okl = False
-        for l in loops:
-            it = l.iter
-            if isinstance(it, ast.Call) and dotted(it.func) == "enumerate" and it.args and isinstance(it.args[0], ast.Call) and is_self_attr(it.args[0].func, "live_paths") and isinstance(l.target, ast.Tuple):
-                idx, lv = ast.unparse(l.target.elts[0]), ast.unparse(l.target.elts[1])
-                if live is not None and ast.unparse(live) == lv:
-                    v = ast.unparse(st.value)
-                    if ("_last_prob" in v or "self.prob" in v) and f"[{idx}" in v.replace(" ", ""):
-                        okl = True
-        if not okl:
-            ctx.bad(rid, st, "the accumulated row is not the P-matrix row of the same live-path index that is credited")
-            ok = False
         if ok:
-            ctx.ok(rid, st, "+= under `live not in locked_paths()` (taken after add_traj); row index and credited path come from one enumerate(live_paths())")
+            ctx.ok(rid, st, f"+= under `live not in locked_paths()` (taken after add_traj); row index and credited path come from one {pairing[2]}")
 
 
 def r43(ctx):
@@ -233,6 +256,8 @@ VARIANTS = [
       also=[(REPEX, "        # save for possible restart\n        self.write_toml()\n\n        return md_items", '        # save for possible restart\n        self.write_toml()\n        if md_items["status"] == "ACC":\n            write_to_pathens(self, md_items["pnum_old"])\n\n        return md_items')]),
     B("c04-archive-live-paths", REPEX, 'write_to_pathens(self, md_items["pnum_old"])', "write_to_pathens(self, pn_news)", "R-4.3"),
     B("c04-second-archive-site", REPEX, "        self.print_end()\n            self.write_toml()", "        self.print_end()\n            write_to_pathens(self, self.live_paths())\n            self.write_toml()", "R-4.3"),
+    B("c04-index-into-filtered-list", REPEX, "        for idx, live in enumerate(self.live_paths()):\n            if live not in locked_trajs:\n                self.traj_data[live][\"frac\"] += self._last_prob[:-1][idx, :]", "        idle_trajs = [live for live in self.live_paths() if live not in locked_trajs]\n        for idx, live in enumerate(idle_trajs):\n            self.traj_data[live][\"frac\"] += self._last_prob[:-1][idx, :]", "R-4.2", why="seeded C04_a"),
+    K("c04-keep-prefiltered-pairs", REPEX, "        for idx, live in enumerate(self.live_paths()):\n            if live not in locked_trajs:\n                self.traj_data[live][\"frac\"] += self._last_prob[:-1][idx, :]", "        idle = [(idx, live) for idx, live in enumerate(self.live_paths()) if live not in locked_trajs]\n        for idx, live in idle:\n            self.traj_data[live][\"frac\"] += self._last_prob[:-1][idx, :]"),
     K("c04-keep-guard-via-set", REPEX, "            if live not in locked_trajs:\n                self.traj_data[live][\"frac\"] +=", "            if not (live in locked_trajs):\n                self.traj_data[live][\"frac\"] +="),
     K("c04-keep-acc-swapped", REPEX, '        if md_items["status"] == "ACC":\n            write_to_pathens', '        if "ACC" == md_items["status"]:\n            write_to_pathens'),
     K("c04-keep-pop-via-del", REPEX, "            traj_data.pop(pn)\n", "            del traj_data[pn]\n"),
